@@ -32,7 +32,7 @@ BOUNDS = {
     "thorough": "same skeletons, holes of length 0..4 (3 in netloc positions)",
 }
 STUBS = ["UTF-8 codec, urllib.parse.quote, dict table lookups, regex matcher (see C14)", "stdlib urlsplit / SplitResult properties / urlunsplit interpreted from source",
-         "unicodedata.normalize (NFKC check in urlsplit): symbolic netloc characters assumed ASCII (paths cut and counted)",
+         "urllib.parse._checknetloc (NFKC check, C code below it) modelled exactly: ValueError iff the netloc holds one of the 19 code points whose NFKC form contains one of / ? # @ : (set computed from CPython's unicodedata at run time; composition never consumes a delimiter)",
          "idna codec: symbolic labels starting with xn-- are cut"]
 TRUSTED = ["spec/url.py (reference denotation: cleaning, dot-segment / empty-segment resolution, query reader), spec/common.py pct_decode", "pysx engine", "z3"]
 ASSUMPTIONS = ["inputs that the standard parser rejects (ValueError) are outside the property", "'' and absent userinfo/fragment are identified; '' and '/' paths are identified; '+' in queries is literal",
